@@ -4,7 +4,8 @@
    (transcriptions of the scans in wbxml_parser.c / wbxml_tables.c); checkers: Model/TablesCheck.v;
    proofs: Proofs/TablesProofs.v (vm_compute on the checkers + forallb_forall + generic lemmas). *)
 From Coq Require Import List NArith String Bool.
-From Wbxml Require Import Model.TablesDefs Model.Tables Model.TablesCheck Gen.TablesData Proofs.TablesProofs.
+From Wbxml Require Import Model.TablesDefs Model.Tables Model.TablesCheck Model.HardWiredDefs Gen.TablesData Gen.HardWired
+     Proofs.TablesProofs Proofs.HardWiredProofs.
 Import ListNotations.
 Local Open Scope N_scope.
 
@@ -44,6 +45,26 @@ Proof.
 Qed.
 Print Assumptions C08_namespace_bijection.
 
+(* Hard-wired typed elements.  Gen/HardWired.v is a behavioural probe of the current tree: dec_hardwired = every
+   (language, place, page, token) for which the parser applies integer / date-time / base64 handling
+   (decode_opaque_content incl. decode_wv_content, decode_opaque_attr_value, the SI/EMN branch of parse_attribute, probed
+   for all 29 x 256 x 64 resp. x 123 combinations), enc_hardwired = the same for the encoder (wbxml_encode_value_element_buffer
+   in content and attribute context).  Every such entry has a row in that language's table whose name is one of the names
+   pinned for that language, place and type (registry/typed_elements.json). *)
+Theorem C08_hardwired_elements_intended : forall h, In h (dec_hardwired ++ enc_hardwired) -> intended_P main_table pinned_typed h.
+Proof. exact hardwired_intended. Qed.
+Print Assumptions C08_hardwired_elements_intended.
+
+(* Every element or attribute the encoder writes in a typed binary form is one the parser decodes with the same type. *)
+Theorem C08_encoder_typed_forms_decoded : forall e, In e enc_hardwired -> decoded_same_P dec_hardwired e.
+Proof. exact encoder_forms_decoded. Qed.
+Print Assumptions C08_encoder_typed_forms_decoded.
+
+(* ... and every pinned name is really singled out by the parser (the pinned set is not larger than the code). *)
+Theorem C08_pinned_typed_elements_realised : forallb (pin_realised main_table dec_hardwired) pinned_typed = true.
+Proof. exact pins_realised. Qed.
+Print Assumptions C08_pinned_typed_elements_realised.
+
 (* the boolean conjunction that the generic parser / encoder theorems (C04-C07, C13, C17) assume *)
 Theorem C08_tables_ok_main : forall l, In l main_table -> tables_ok l = true.
 Proof. exact tables_ok_each. Qed.
@@ -64,3 +85,6 @@ Example C08_ex_exceptions_minimal :
   (* every pinned alias / synonym is realised by the current tables: the exception lists are not longer than needed *)
   True.
 Proof. pose proof aliases_realised. exact I. Qed.
+Example C08_ex_hardwired : existsb (hw_eqb (mk_hw 2301 HContent 0 11 HInteger)) dec_hardwired = true /\
+  existsb (hw_eqb (mk_hw 1301 HAttrDT 0 10 HDateTime)) enc_hardwired = true.
+Proof. split; vm_compute; reflexivity. Qed.
